@@ -1,8 +1,11 @@
 package nfs41
 
 import (
+	"bytes"
 	"context"
+	"crypto/sha256"
 	"encoding/binary"
+	"encoding/hex"
 	"fmt"
 	"math"
 	"runtime/debug"
@@ -85,7 +88,7 @@ type Op struct {
 	Sid2  sid // LOCK with a new lock-owner: the open state ID
 	Sids  []sid
 	LT    string // R W RW WW BAD
-	RK    string // range len0 overflow exact
+	RK    string // range len0 overflow exact last last1
 	S, E  int
 	NewO  bool
 	Off   uint64
@@ -116,6 +119,12 @@ func offLen(rk string, s, e int) (uint64, uint64) {
 		return pos(s), math.MaxUint64 - pos(s) + 1
 	case "exact":
 		return pos(s), math.MaxUint64 - pos(s)
+	case "last":
+		// exactly the byte at offset 2^64-1 ("through end of file")
+		return math.MaxUint64, math.MaxUint64
+	case "last1":
+		// the same byte with an explicit length: offset+length overflows
+		return math.MaxUint64, 1
 	}
 	if e >= nPos {
 		return pos(s), math.MaxUint64
@@ -412,8 +421,20 @@ func seqArgs(sess [16]byte, slot, seq uint32, cache bool, ops []*Op) *nfsv4.Comp
 	return args
 }
 
+// argsHash identifies the complete content of a request (operation types
+// and all arguments).
+func argsHash(args *nfsv4.Compound4args) string {
+	b := bytes.NewBuffer(nil)
+	if _, err := args.WriteTo(b); err != nil {
+		return "unencodable:" + err.Error()
+	}
+	h := sha256.Sum256(b.Bytes())
+	return hex.EncodeToString(h[:8])
+}
+
 func (e *env) seqEvent(x int, sess [16]byte, slot, seq uint32, cache bool, ops []*Op, st string) common.Ev {
-	return common.Ev{"ev": "seq", "x": x, "sid": e.sess(sess), "slot": int(slot), "sq": clampU32(seq), "cache": cache, "shape": shapeOf(ops), "st": st}
+	return common.Ev{"ev": "seq", "x": x, "sid": e.sess(sess), "slot": int(slot), "sq": clampU32(seq), "cache": cache, "shape": shapeOf(ops), "st": st,
+		"ah": argsHash(seqArgs(sess, slot, seq, cache, ops))}
 }
 
 func (e *env) endEvent(x int, res *nfsv4.Compound4res) common.Ev {
